@@ -1123,7 +1123,43 @@ func ruleTAB4(w *World) []Ob {
 				}
 			})
 		}
+		// … and nothing decides beforehand, by looking at the root without following links, whether to walk at all
+		lstatAt, condAt := "", ""
+		for _, f := range fam {
+			f := f
+			allInstrs(f, func(in ssa.Instruction) {
+				c, ok := in.(*ssa.Call)
+				if !ok {
+					return
+				}
+				switch calleeFullName(c.Common()) {
+				case "os.Lstat", "(*os.Root).Lstat", "io/fs.Lstat", "os.Readlink":
+					lstatAt = p.InstrPos(c)
+				case "io/fs.WalkDir":
+					for _, g := range guardsOf(c.Block()) {
+						// error tests and nil guards (a nil root has nothing to walk) are not decisions about the directory
+						if _, _, isNil := nilTest(g.Cond, g.Pol); isNil {
+							continue
+						}
+						cd, _ := flattenCond(g.Cond, g.Pol)
+						if isRangeLoopCond(cd) || isIndexLoopCond(cd) {
+							continue
+						}
+						condAt = p.InstrPos(g.If) + " (" + describeValue(cd) + ")"
+					}
+				}
+			})
+		}
+		switch {
+		case walk == "io/fs.WalkDir" && lstatAt != "":
+			walk = "lstat"
+			l.bad(p.FuncID(vr), "directory walk opens its root", p.Pos(vr.Pos()), "the root is examined with Lstat at "+lstatAt+", which does not follow a symbolic link: a root that is a symlink to a directory is taken for a non-directory and every node below it is reported missing although it exists", "sets")
+		case walk == "io/fs.WalkDir" && condAt != "":
+			walk = "cond"
+			l.bad(p.FuncID(vr), "directory walk opens its root", p.Pos(vr.Pos()), "whether the root is walked at all depends on the condition at "+condAt+": on the other side the entries beneath the root are never compared with the tree", "sets")
+		}
 		switch walk {
+		case "lstat", "cond":
 		case "io/fs.WalkDir":
 			l.ok(p.FuncID(vr), "directory walk opens its root", p.Pos(vr.Pos()), "fs.WalkDir over os.DirFS(root): a root that is a symlink to a directory is descended like any directory", false, "sets")
 		case "":
@@ -1558,8 +1594,91 @@ func ruleTAB6(w *World) []Ob {
 		}
 	}
 	// encode constants ↔ option ↔ encoder package
+	tab6ConfigDefaults(w, l)
 	tab6Encoders(w, l)
 	return l.list
+}
+
+// tab6ConfigDefaults: the branch strings an option sets are final — the config constructor writes its defaults before it
+// applies the options and not afterwards.  A default applied after the options ("still zero ⇒ unset") cannot tell an
+// explicit WithBranchFormat…("", "") from no option at all.
+func tab6ConfigDefaults(w *World, l *obs) {
+	for _, p := range []*Prog{w.D(), w.W()} {
+		l.cfg = p.Cfg.Name
+		n := 0
+		for _, fn := range libFuncs(p) {
+			if fn.Parent() != nil {
+				continue
+			}
+			// the loop that applies the options: a dynamic call of a func(*config) value inside a loop
+			var apply ssa.Instruction
+			allInstrs(fn, func(in ssa.Instruction) {
+				c, ok := in.(*ssa.Call)
+				if !ok || c.Common().StaticCallee() != nil || c.Common().IsInvoke() || len(c.Common().Args) != 1 || !inLoop(c) {
+					return
+				}
+				if typeName(c.Common().Args[0].Type()) == "config" && typeName(c.Common().Value.Type()) == "Option" {
+					apply = c
+				}
+			})
+			if apply == nil {
+				continue
+			}
+			n++
+			cfgv := apply.(*ssa.Call).Common().Args[0]
+			var late []string
+			var scan func(f *ssa.Function, base ssa.Value, from ssa.Instruction, depth int)
+			scan = func(f *ssa.Function, base ssa.Value, from ssa.Instruction, depth int) {
+				allInstrs(f, func(in ssa.Instruction) {
+					if from != nil && !(reachableAfter(from, in) && !inLoopWith(from, in)) {
+						return
+					}
+					switch x := in.(type) {
+					case *ssa.Store:
+						fa, ok := x.Addr.(*ssa.FieldAddr)
+						if !ok {
+							return
+						}
+						// c.lastNodeFormat = … or c.lastNodeFormat.directly = …
+						top := fa
+						if inner, ok := fa.X.(*ssa.FieldAddr); ok {
+							top = inner
+						}
+						tn, fld, _ := fieldOf(top)
+						if tn == "config" && (fld == "lastNodeFormat" || fld == "intermedialNodeFormat") && sameVar(top.X, base) {
+							late = append(late, "config."+fld+" at "+p.InstrPos(x))
+						}
+					case *ssa.Call:
+						g := x.Common().StaticCallee()
+						if g == nil || !p.InModule(g) || depth > 1 || len(g.Blocks) == 0 {
+							return
+						}
+						for i, a := range x.Common().Args {
+							if sameVar(a, base) && i < len(g.Params) {
+								scan(g, g.Params[i], nil, depth+1)
+							}
+						}
+					}
+				})
+			}
+			scan(fn, cfgv, apply, 0)
+			construct := "branch-format defaults are written before the options are applied"
+			if len(late) > 0 {
+				l.bad(p.FuncID(fn), construct, p.InstrPos(apply), "after the options have run the constructor still stores "+strings.Join(dedup(late), ", ")+": a default applied afterwards (\"still the zero value, so unset\") replaces branch strings the caller set explicitly to empty", "config-defaults")
+			} else {
+				l.ok(p.FuncID(fn), construct, p.InstrPos(apply), "no store to the branch-format fields after the loop that applies the options", true, "config-defaults")
+			}
+		}
+		if n == 0 && p.Cfg.Name == "D" {
+			l.undecided("-", "config constructors", "-", "no function applying Option values in a loop was found", "config-defaults")
+		}
+	}
+}
+
+// inLoopWith: b executes in the same loop iteration structure as a (b can reach a again) — used to tell "after the
+// loop" from "later in the loop body".
+func inLoopWith(a, b ssa.Instruction) bool {
+	return canReach(b.Block(), a.Block()) && b.Block() != a.Block() || (b.Block() == a.Block() && inLoop(a))
 }
 
 func tab6Encoders(w *World, l *obs) {
@@ -2188,6 +2307,64 @@ func ruleTAB7(w *World) []Ob {
 			l.ok("cmd/gtree", "--target-dir is handed to the library unprobed", "-", "no filesystem call of the command line takes the --target-dir value", true, "wire")
 		}
 	}
+	// flag tables are independent: appending to a prefix of another command's flag slice (append(flags[:k], …) without a
+	// capacity limit) writes over that slice's remaining elements — the other command silently loses those flags
+	{
+		nAlias := 0
+		for _, fn := range p.ModFuncs {
+			if p.PkgPath(fn) != cliPkgPath {
+				continue
+			}
+			fn := fn
+			allInstrs(fn, func(in ssa.Instruction) {
+				c, ok := in.(*ssa.Call)
+				if !ok || !isBuiltinCall(c, "append") || len(c.Common().Args) != 2 {
+					return
+				}
+				sl, ok := c.Common().Args[0].(*ssa.Slice)
+				if !ok || sl.Max != nil || sl.High == nil {
+					return
+				}
+				// the sliced operand is a live slice (not a fresh literal): loaded from a variable or a parameter
+				src := sl.X
+				if _, isSlice := src.Type().Underlying().(*types.Slice); !isSlice {
+					return
+				}
+				if k, isK := constInt(sl.High); isK && k == 0 {
+					return // s[:0] — reuse of a scratch buffer, nothing of it is kept
+				}
+				// is the source used again after the append?
+				usedLater := false
+				cands := []ssa.Value{src}
+				if ld, isL := isLoad(src); isL {
+					for _, l2 := range cellLoads(ld) {
+						cands = append(cands, l2)
+					}
+				}
+				for _, v := range cands {
+					if v.Referrers() == nil {
+						continue
+					}
+					for _, r := range *v.Referrers() {
+						if r == ssa.Instruction(sl) {
+							continue
+						}
+						if r.Parent() != fn || reachableAfter(c, r) {
+							usedLater = true
+						}
+					}
+				}
+				if !usedLater {
+					return
+				}
+				nAlias++
+				l.bad(p.FuncID(fn), "command flag tables do not share storage", p.InstrPos(c), "append onto "+describeValue(src)+"[:k] (no capacity limit) writes into the backing array of that slice, which is used again afterwards: its elements after k are overwritten, so the command it belongs to loses those flags (unknown flag → usage error, exit 1) and accepts the appended ones instead", "wire")
+			})
+		}
+		if nAlias == 0 {
+			l.ok("cmd/gtree", "command flag tables do not share storage", "-", "no append onto an uncapped prefix of a slice that is used again", true, "wire")
+		}
+	}
 	// --massive-timeout: the deadline is applied whenever the flag is given, also together with --massive
 	{
 		nTimeout := 0
@@ -2233,6 +2410,14 @@ func ruleTAB7(w *World) []Ob {
 					l.ok(p.FuncID(fn), construct, p.InstrPos(c), "not conditional on --massive being absent", true, "wire")
 				}
 			})
+		}
+		for fn := range set {
+			if p.PkgPath(fn) != cliPkgPath {
+				continue
+			}
+			for _, w2 := range escapingCancelledCtx(p, fn) {
+				l.bad(p.FuncID(fn), "--massive-timeout → a live context reaches the library", p.Pos(fn.Pos()), w2, "wire")
+			}
 		}
 		if hasFlag && nTimeout == 0 {
 			l.bad("cmd/gtree", "--massive-timeout → WithTimeout", "-", "the flag is read but no context with a deadline is derived on the command routes: the timeout has no effect", "wire")
